@@ -450,6 +450,39 @@ func c13Caps(r *rng, id string) {
 		}
 		res = append(res, c.name+"="+st)
 	}
+	// the same question on a node that has a key (the length field of the encryption envelope is read
+	// before anything is authenticated): how much of what follows is taken off the connection?
+	if rcvE, err := newCnode(ccfg{name: "RE", key: []byte("0123456789abcdef"), verifyIn: true, verifyOut: true}); err == nil {
+		for _, declared := range []uint32{20*1024*1024 + 1, 64 * 1024 * 1024, 0xFFFFFFFF} {
+			offered := 6 * 1024 * 1024
+			data := make([]byte, 5+offered)
+			data[0] = 10
+			binary.BigEndian.PutUint32(data[1:5], declared)
+			fc := newFragConn(data, []int{5, 5 + 65536})
+			pan := false
+			func() {
+				defer func() {
+					if rec := recover(); rec != nil {
+						pan = true
+					}
+				}()
+				ml.VerifHandleConn(rcvE.m, fc)
+			}()
+			left := 0
+			for _, f := range fc.frags {
+				left += len(f)
+			}
+			taken := offered - left
+			st := "ok"
+			if pan {
+				st = "panic"
+			} else if taken > 1024*1024 {
+				st = fmt.Sprintf("buffered:%dMiB", taken>>20)
+			}
+			res = append(res, fmt.Sprintf("sealed-length-%d=%s", declared, st))
+		}
+		rcvE.m.Shutdown()
+	}
 	// handoff queue depth: block the handler, flood, and look at the queue
 	blk := make(chan struct{})
 	rcv2, err := newCnode(ccfg{name: "R2"})
@@ -623,6 +656,72 @@ func c13Stall(r *rng, id string) {
 	emit("C13 stall id=%s label=%d enc=%s n=%d bad=%s", id, len(c.label), enc, total, bs)
 }
 
+// c13Nacks: a replayed (or hostile) burst of nack messages carrying the sequence number of a probe that is
+// still in flight: the packet path must take every one of them without ever waiting, and the node must
+// still shut down.
+func c13Nacks(r *rng, id string) {
+	n, err := newC19(3, "off", 8)
+	if err != nil {
+		return
+	}
+	m := n.m
+	vsn := []uint8{1, 5, 2, 0, 0, 0}
+	ml.VerifAliveNode(m, 1, "T", []byte{10, 0, 0, 1}, 7946, nil, vsn, nil, false)
+	for i := 0; i < 3; i++ {
+		ml.VerifAliveNode(m, 1, fmt.Sprintf("R%d", i), []byte{10, 0, 1, byte(i + 1)}, 7946, nil, vsn, nil, false)
+	}
+	ml.VerifResetBroadcasts(m) // nothing to piggyback: the ping travels alone and its number can be read off
+	n.tr.take()
+	probeDone := make(chan struct{})
+	go func() { ml.VerifProbeNodeByName(m, "T"); close(probeDone) }()
+	seq := uint32(0)
+	for i := 0; i < 200 && seq == 0; i++ {
+		time.Sleep(5 * time.Millisecond)
+		for _, p := range n.tr.take() {
+			if len(p) > 1 && p[0] == 0 {
+				seq, _, _ = ml.VerifDecodePing(p[1:])
+			}
+		}
+	}
+	copies := 5 + r.intn(6)
+	at := []time.Duration{0, 100 * time.Millisecond, 600 * time.Millisecond}[r.intn(3)] // before / after the indirect pings went out
+	time.Sleep(at)
+	fed := make(chan struct{})
+	go func() {
+		defer func() { recover(); close(fed) }()
+		for i := 0; i < copies; i++ {
+			nack, _ := ml.VerifEncode(11, seq, "", nil)
+			ml.VerifIngestPacket(m, nack, fromAddr, time.Now())
+		}
+	}()
+	hang := 0
+	select {
+	case <-fed:
+	case <-time.After(4 * time.Second):
+		hang = 1
+	}
+	select {
+	case <-probeDone:
+	case <-time.After(6 * time.Second):
+		hang |= 2
+	}
+	sd := make(chan struct{})
+	go func() { m.Shutdown(); close(sd) }()
+	select {
+	case <-sd:
+	case <-time.After(4 * time.Second):
+		hang |= 4
+	}
+	bs := "-"
+	if hang != 0 {
+		bs = fmt.Sprintf("hang:packet-path-blocked-on-a-nack(%d-copies-for-seq-%d,mask=%d)", copies, seq, hang)
+	}
+	if seq == 0 {
+		bs = "no-ping-seen" // the scenario did not get off the ground
+	}
+	emit("C13 nacks id=%s n=%d bad=%s", id, copies, bs)
+}
+
 func TestC13(t *testing.T) {
 	n := envInt("VERIF_N", 1500)
 	if thorough() {
@@ -634,4 +733,5 @@ func TestC13(t *testing.T) {
 	forCases(1, 134, "c", func(i int, r *rng, id string) { c13Caps(r, id) })
 	forCases(1+n/500, 135, "f", func(i int, r *rng, id string) { c13Fields(r, id) })
 	forCases(2+n/300, 136, "t", func(i int, r *rng, id string) { c13Stall(r, id) })
+	forCases(3, 137, "k", func(i int, r *rng, id string) { c13Nacks(r, id) })
 }
